@@ -598,8 +598,12 @@ def spline_grid(case, ctx):
         adjoint_suite(ctx, "spline_grid:" + case["itype"], A, B, int(np.prod(shape_s)), nused * nout_q,
                       case["seed"] + 1, nprobe=3, dense_limit=0)
         # many tiny parallel regions per application: with a team of 16 the dense probe is kept smaller
+        # composite of two sums (orbital -> spline -> grid) with sign-alternating spline weights: the intermediate terms of
+        # an entry can exceed the entry by the ratio to the column maximum, so the absolute floor is 1e-13 of the column
+        # maximum here (measured in the thorough tier, 59k cases: 3.4e-14 on an entry 40x below its column maximum) and the relative
+        # tolerance 1e-11 (measured 1.8e-12 on a column maximum of 7e-8); a transposition error is O(1) relative
         adjoint_suite(ctx, "orb_grid:" + case["itype"], PA, PB, nao * nin_q, ngout * nout_q, case["seed"] + 2,
-                      dense_limit=900 if case["threads"] < 16 else 350)
+                      dense_limit=900 if case["threads"] < 16 else 350, floor=1e-13, rtol=1e-11)
 
 
 # ----------------------------------------------------------------------------------------------
